@@ -453,6 +453,65 @@ def run_scaling(shard, ctx, sm, rng):
         if r2 > 2.5 * r1 + 5:
             ctx.fail("C11:%s.superlinear_work" % name, "%s: %.1f steps/byte on %d bytes but %.1f steps/byte on %d bytes: work is not proportional to the size" % (name, r1, l1, r2, l2),
                      {"decoder": name, "bytes": [l1, l2], "steps": [s1, s2]})
+            continue
+        # work that no line event shows (a search or a copy inside one C call per descriptor, the rest of the data copied for every
+        # entry): the processor time of the calling thread for two well-formed responses of the same kind, one four times the
+        # size of the other, outside the step monitor.  Proportional work costs four times as much; a verdict is given only for
+        # more than 2.2 times that, measured three times over, on responses that take long enough to be measurable
+        import time as _time
+
+        def cpu(b, kw):
+            buf = bytearray(b)
+            t0 = _time.thread_time()
+            try:
+                cls.unmarshall_datain(buf, **kw)
+            except Exception:  # noqa: BLE001
+                pass
+            return _time.thread_time() - t0
+
+        big_n = {"reportluns": 32768, "getlbastatus": 32768, "prin.readkeys": 32768, "reporttargetportgroups": 8192, "readelementstatus": 8192,
+                 "prin.readfullstatus": 4096, "reportpriority": 4096}.get(name)
+        stages = [big_n] if big_n is None else [big_n, big_n * 4]  # the larger pair only if the first one is proportional
+        for big_n in stages:
+            if cpu_stage(ctx, name, f, cls, rng, cpu, big_n, vbig, n1, n2):
+                break
+
+
+def cpu_stage(ctx, name, f, cls, rng, cpu, big_n, vbig, n1, n2):
+    """one pair of responses (big_n entries and a quarter of that); returns True when a verdict was given"""
+    if True:
+        if big_n is None:
+            vcpu = vbig
+            vs = shrink(vbig, max(n1 * 4, n2 // 4))
+        else:
+            vcpu = f.gen(rng, ("count", big_n, 0) if name == "reporttargetportgroups" else ("count", big_n))
+            if name == "reportluns":
+                vcpu["_luns"] = [(i * 2654435761) & ((1 << 64) - 1) for i in range(big_n)]  # all different
+            if name == "reporttargetportgroups":
+                for i, g in enumerate(vcpu["target_port_group_descriptors"]):
+                    g["target_port_group"] = i & 0xFFFF
+            vs = shrink(vcpu, big_n // 4)
+        small_b, small_kw = f.encode(vs), f.decode_kwargs(vs)
+        big_b, big_kw = f.encode(vcpu), f.decode_kwargs(vcpu)
+        prop = len(big_b) / max(1, len(small_b))
+        over = 0
+        ratios = []
+        for _round in range(3):
+            t1 = min(cpu(small_b, small_kw), cpu(small_b, small_kw))
+            t2 = cpu(big_b, big_kw)
+            ratios.append(round(t2 / max(t1, 1e-6), 1))
+            if t2 > 0.05 and t2 > 2.2 * prop * max(t1, 1e-4):
+                over += 1
+            else:
+                break
+        ctx.count("cpu_time_scalings_measured")
+        ctx.case(("cpu-scaling", name, len(small_b), len(big_b)), True)
+        ctx.maximum("cpu_time_growth_over_proportional.%s" % name, round(ratios[0] / max(prop, 1e-9), 2), {"bytes": [len(small_b), len(big_b)], "cpu_ratio": ratios})
+        if over == 3:
+            ctx.fail("C11:%s.superlinear_work.cpu_time" % name, "%s: decoding %d bytes costs %s times the processor time of %d bytes (proportional: %.1f times), in three measurements: work that grows faster than the size"
+                     % (name, len(big_b), ratios, len(small_b), prop), {"decoder": name, "bytes": [len(small_b), len(big_b)], "cpu_ratio": ratios})
+            return True
+        return False
 
 
 def naa_designator(i):
@@ -527,15 +586,29 @@ def run_retention(shard, ctx, rng):
     for name, f in D.FORMATS.items():
         cls = f.lib_cls()
         decoders.append((name, f, cls))
-    for name, f, cls in decoders + [("sense", None, None)]:
+    for name, f, cls, hostile in [d + (False,) for d in decoders + [("sense", None, None)]] + [d + (True,) for d in decoders + [("sense", None, None)]]:
         bufs = []
         for i in range(N + 60):
             if f is None:
                 descs = [SR.descriptor(k, rng) for k in rng.sample(SR.DESCRIPTOR_KINDS, 3)]
-                bufs.append((SR.build_with_descriptors(0x72, rng.randrange(16), rng.getrandbits(8), rng.getrandbits(8), descs), {}))
+                b, kw, sites = SR.build_with_descriptors(0x72, rng.randrange(16), rng.getrandbits(8), rng.getrandbits(8), descs), {}, [(7, 1)]
             else:
                 v = f.gen(rng)
-                bufs.append((f.encode(v), f.decode_kwargs(v)))
+                b, kw = f.encode(v), f.decode_kwargs(v)
+                sites = f.length_sites(v, b)
+            if hostile:
+                # ... and the same stream from a target whose length fields are wrong (each response different from all before)
+                b = bytearray(b)
+                for off, n in sites[:3] or [(0, 1)]:
+                    if off + n <= len(b):
+                        cur = int.from_bytes(b[off:off + n], "big")
+                        b[off:off + n] = ((cur + rng.choice([1, 2, 3, 8, 16, -1, -2, -8])) % (1 << (8 * n))).to_bytes(n, "big")
+                if len(b) > 8:
+                    b[rng.randrange(len(b))] = rng.getrandbits(8)
+                b = bytes(b)
+            bufs.append((b, kw))
+        if hostile:
+            name = name + ".hostile"
 
         def decode(b, kw):
             try:
